@@ -3,12 +3,23 @@ package main
 import (
 	"fmt"
 	"strings"
+	"time"
 
 	"github.com/mfcochauxlaberge/jsonapi"
 )
 
 // small value pools so that sorting meets ties
 func genValSmall(r *Rng, kind int, nullable bool) any {
+	if kind == jsonapi.AttrTypeTime && r.chance(1, 4) {
+		// one instant read in different zones: a tie for every rule (time.Time.Equal),
+		// though the values differ as structs
+		locs := []*time.Location{time.UTC, time.FixedZone("", 3600), time.FixedZone("", -7*3600)}
+		t := time.Unix(1517630706, 5).In(locs[r.IntN(3)])
+		if nullable {
+			return &t
+		}
+		return t
+	}
 	if r.chance(1, 3) {
 		return genVal(r, kind, nullable)
 	}
